@@ -12,7 +12,7 @@ From MV Require Import Base.PyStr Inv.WildModel InvLoad.Regex Gen.Inventory InvL
   InvLoad.Reader InvLoad.Load InvLoad.SphinxInv InvLoad.TableCodec
   InvLoad.ReaderProofs InvLoad.LoadProofs InvLoad.TextProofs InvLoad.AgreeProofs
   InvLoad.BadLineProofs InvLoad.RoundtripProofs InvLoad.CodecProofs InvLoad.WitnessProofs
-  InvLoad.Utf8Proofs InvLoad.Cli InvLoad.CliProofs.
+  InvLoad.Utf8Proofs InvLoad.Cli InvLoad.CliProofs InvLoad.SrcPrims Gen.InventorySrc InvLoad.SrcProofs InvLoad.SrcTop.
 Import ListNotations.
 Open Scope N_scope.
 
@@ -332,6 +332,82 @@ Theorem C18_cli_filter_exact :
     end.
 Proof. exact cli_filter_lookup. Qed.
 Print Assumptions C18_cli_filter_exact.
+
+(* ------------------------------------------------------------------------------------------
+   Source-translation tie (round 3).  Gen/InventorySrc.v is regenerated on every run from
+   inventory.py by gen/c18_src.py: InventoryFileReader.read_buffer / readline / readlines /
+   read_compressed_chunks / read_compressed_lines, load / _load_v1 / _load_v2, from_sphinx /
+   to_sphinx, statement by statement.  Each generated definition equals the hand-written model: *)
+Theorem C18_inventory_src_refines :
+  (forall r, read_buffer_src r = read_buffer r) /\
+  (forall decode r, readline_src decode r = readline decode r) /\
+  (forall decode r, readlines_src decode r = readlines decode r) /\
+  (forall dstate dinit dstep dflush derr r,
+     read_compressed_chunks_src dstate dinit dstep dflush derr r =
+     read_compressed_chunks dstate dinit dstep dflush derr r) /\
+  (forall dstate dinit dstep dflush derr decode r,
+     read_compressed_lines_src dstate dinit dstep dflush derr decode r =
+     read_compressed_lines dstate dinit dstep dflush derr decode r) /\
+  (forall decode r base, load_v1_src decode r base = load_v1 decode r base) /\
+  (forall dstate dinit dstep dflush derr decode match_line r base,
+     load_v2_src dstate dinit dstep dflush derr decode match_line r base =
+     load_v2 dstate dinit dstep dflush derr decode match_line r base) /\
+  (forall dstate dinit dstep dflush derr decode match_line cs base,
+     load_src dstate dinit dstep dflush derr decode match_line cs base =
+     load dstate dinit dstep dflush derr decode match_line cs base) /\
+  (forall s, from_sphinx_src s = from_sphinx s) /\
+  (forall inv, to_sphinx_src inv = to_sphinx inv).
+Proof. exact inventory_src_refines. Qed.
+Print Assumptions C18_inventory_src_refines.
+
+(* ... so the property theorems hold for what the code says now *)
+Theorem C18_chunking_independent_src :
+  forall (dstate : Type) (dinit : dstate) (dstep : dstate -> bytes -> dstate * bytes)
+         (dflush : dstate -> bytes) (derr : dstate -> bool)
+         (decode : bytes -> option str) (match_line : str -> option (str * str * str * str * str)),
+  zlib_stream_ok dstate dstep derr ->
+  forall (cs : list bytes) (base_url : option str),
+    load_src dstate dinit dstep dflush derr decode match_line cs base_url =
+    load_src dstate dinit dstep dflush derr decode match_line [live cs] base_url
+    \/
+    (load_src dstate dinit dstep dflush derr decode match_line [live cs] base_url = IRaise ZlibErr /\
+     exists e, load_src dstate dinit dstep dflush derr decode match_line cs base_url = IRaise e /\
+               (e = ZlibErr \/ e = UnicodeDecodeErr)).
+Proof. exact chunking_independent_src. Qed.
+Print Assumptions C18_chunking_independent_src.
+
+Theorem C18_load_terminates_src :
+  forall (dstate : Type) (dinit : dstate) (dstep : dstate -> bytes -> dstate * bytes)
+         (dflush : dstate -> bytes) (derr : dstate -> bool)
+         (decode : bytes -> option str) (match_line : str -> option (str * str * str * str * str)),
+  zlib_stream_ok dstate dstep derr ->
+  forall (cs : list bytes) (base_url : option str),
+    load_src dstate dinit dstep dflush derr decode match_line cs base_url <> IRaise OutOfFuelErr.
+Proof. exact load_terminates_src. Qed.
+Print Assumptions C18_load_terminates_src.
+
+Theorem C18_agrees_with_sphinx_src :
+  forall (dstate : Type) (dinit : dstate) (dstep : dstate -> bytes -> dstate * bytes)
+         (dflush : dstate -> bytes) (derr : dstate -> bool) (dz : bytes -> option bytes)
+         (decode : bytes -> option str) (match_line : str -> option (str * str * str * str * str)),
+  zlib_stream_ok dstate dstep derr ->
+  zlib_oneshot_ok dstate dinit dstep dflush derr dz ->
+  decode_ok decode ->
+  forall (cs : list bytes) (uri : str) (base_url : option str) (sinv : sinv_t),
+    Forall (fun l => decode l <> None) (firstn 4 (bsplit_nl 4 (live cs))) ->
+    (forall text, sphinx_text dz decode (live cs) = Some text -> crlf_only text) ->
+    sphinx_loads dz decode match_line (live cs) uri = IOk sinv ->
+    exists inv : inventory,
+      load_src dstate dinit dstep dflush derr decode match_line cs base_url = IOk inv /\
+      agree uri (inv_objects inv) sinv /\
+      (plain_header (live cs) -> same_project inv sinv).
+Proof. exact agrees_with_sphinx_src. Qed.
+Print Assumptions C18_agrees_with_sphinx_src.
+
+Theorem C18_sphinx_roundtrip_src :
+  forall inv : inventory, wf_inv inv -> from_sphinx_src (to_sphinx_src inv) = inv.
+Proof. exact sphinx_roundtrip_src. Qed.
+Print Assumptions C18_sphinx_roundtrip_src.
 
 (* ------------------------------------------------------------------------------------------
    The oracle hypotheses are satisfiable: the table decompressor of the model runner and the
